@@ -1,7 +1,8 @@
 SPECIFICATION Spec
 CONSTANT MaxCalls = 2
 CONSTANT MaxPerPeer = 2
-CONSTANT KindSet = {"NowOk", "NowDecl", "NowUndecl", "LaterOk", "LaterDecl", "LaterUndecl", "Never"}
+CONSTANT KindSet = {"NowOk", "NowDecl", "NowFatal", "NowUndecl", "LaterOk", "LaterDecl", "LaterFatal", "LaterUndecl", "Never"}
+CONSTANT Flags = {FALSE}
 CONSTANT QC = {TRUE, FALSE}
 VIEW View
 INVARIANT ExactlyOnce
